@@ -558,6 +558,58 @@ def w_codes(ck, paths, n):
     common.pmap(one, range(n), workers=12)
 
 
+def w_array(ck, paths, n):
+    """hostile strings through the array API kalign(): any bytes except NUL / newline (driver limitation), no empty strings
+    (kalign() gives the caller no way to learn a reduced row count)"""
+    def one(i):
+        rng = ck.rng.__class__(ck.seed * 373587883 + i)
+        k = rng.randint(2, 8)
+        mode = rng.choice(["letters", "highbit", "punct", "digits", "mixed", "one_char", "long"])
+        seqs = []
+        for _ in range(k):
+            L = rng.choice([1, 2, 5, 30, 200]) if mode != "long" else rng.choice([600, 1500])
+            if mode == "letters":
+                b = bytes(rng.choice(b"ACGTUNXJOZBacgtxjo") for _ in range(L))
+            elif mode == "highbit":
+                b = bytes(rng.choice(b"ACGT") if rng.random() < 0.8 else rng.randrange(128, 256) for _ in range(L))
+            elif mode == "punct":
+                b = bytes(rng.choice(b"ACGT-.*~_ ") for _ in range(L))
+            elif mode == "digits":
+                b = bytes(rng.choice(b"ACGT0123456789") for _ in range(L))
+            elif mode == "one_char":
+                b = bytes([rng.choice(b"AXN-\x7f\xff\x01")]) * L
+            else:
+                b = bytes(rng.choice([x for x in range(1, 256) if x != 10]) for _ in range(L))
+            seqs.append(b)
+        sf = ck.tmp(".seqs")
+        common.write_bytes(sf, b"".join(x + b"\n" for x in seqs))
+        ty = rng.choice([0, 1, 2, 3, 4, 5])
+        r, lrecs = common.kvdrv(paths, ["arr %s %d %d -1 -1 -1" % (sf, rng.choice([1, 3]), ty)], scratch=ck.scratch)
+        ctx = {"class": "array_api", "idx": i, "mode": mode, "type": ty, "seqs": [x[:200] for x in seqs]}
+        ck.count("runs")
+        ck.count("runs_array_api")
+        ck.evaluated(("array", i))
+        if ck.proc_violations(r, ctx, allow_rcs=(0,)):
+            return
+        a = next((x for x in lrecs if x.get("op") == "arr"), None)
+        if a is None:
+            ck.note_inconclusive("array api: no record")
+            return
+        if a["rc"] == 0:
+            rows = a["rows"]
+            ins = [x.decode("latin-1") for x in seqs]
+            # kvdrv prints rows as JSON strings of the returned bytes; compare with the input strings (gap = '-' added by kalign only
+            # when the input itself has no '-')
+            if len(rows) != len(ins) or len(set(len(x) for x in rows)) != 1:
+                ck.violation("array-api:invalid-result", "kalign() returned %d rows of lengths %s for %d inputs" % (len(rows), sorted(set(len(x) for x in rows))[:4], len(ins)), ctx)
+            elif not any("-" in x for x in ins):
+                for x, y in zip(ins, rows):
+                    if y.replace("-", "") != x:
+                        ck.violation("array-api:row-differs-from-input", "row %r does not de-gap to input %r" % (y[:60], x[:60]), ctx)
+                        break
+    common.pmap(one, range(n), workers=12)
+
+
 def w_memcheck(ck, rel, n):
     if not shutil.which("valgrind"):
         ck.note_inconclusive("valgrind missing")
@@ -681,6 +733,7 @@ def run(ck, tier):
     w_options(ck, asan, int(nopt * sc))
     w_mutation(ck, asan, int(nmut * sc))
     w_codes(ck, asan, int(ncodes * sc))
+    w_array(ck, asan, int((120 if tier == "quick" else 3000) * sc))
     w_perturb(ck, rel, int(npert * sc))
     w_memcheck(ck, rel, int(nmem * sc))
     if tier == "thorough":
